@@ -3,7 +3,7 @@
    (content_eq7 compares norm_msg (trunc_msg _) slot by slot). *)
 From Coq Require Import NArith ZArith List Bool String.
 From FitV Require Import Model.Values Model.Bytes Model.Profile Model.Reflect Model.Components Model.Route Model.IO
-  Model.Encode Model.Decode Spec.RoundTrip
+  Model.Header Model.Encode Model.Decode Spec.RoundTrip Proofs.EncodeProofs
   Spec.RouteSpec Proofs.C07Fixpoint Proofs.C07Reencode Proofs.C07DecodeWf Proofs.C07Integrity Proofs.C07CsdLength Proofs.C07Generations Proofs.C06Route Proofs.StreamDenoteDecode Proofs.EncExamples.
 Import ListNotations.
 Local Open Scope N_scope.
